@@ -15,3 +15,8 @@ package utils
 //@ loop 1
 //@   invariant $i >= -1
 //@   invariant forall k int :: 0 <= k && k <= $i ==> !((caseSensitive && slice[k] == str) || (!caseSensitive && strings.EqualFold(slice[k], str)))
+
+// Snakify is a function of its argument (regexp replacement + lower-casing: assumed, not proved)
+//@ func Snakify
+//@   trusted
+//@   pure
